@@ -135,6 +135,16 @@ fn crafted_inference_programs() -> Vec<String> {
         v.push(format!("{da}\n{db}\npub fn main(x: u8) -> u8 {{ for {pat} in [{val}] {{ }} x }}\n"));
         v.push(format!("{da}\n{db}\nstruct S {{ e: A }}\npub fn main(x: u8) -> u8 {{ let s = S {{ e: {val} }}; let S {{ e: {pat} }} = s; x }}\n"));
     }
+    // a block that ends in a let / assignment / for has the value (), whatever expression statements
+    // of the wanted type it contains before
+    for (ty, val) in [("u8", "x"), ("u16", "(x as u16) + 1u16"), ("bool", "x == 0u8"), ("(u8, u8)", "(x, x)"), ("[u8; 2]", "[x, x]")] {
+        for tail in ["let z = x;", "r = 1u8;", "r += 1u8;", "for i in 0u8..3u8 { r = r + i; }", "let mut z = x;"] {
+            v.push(format!("pub fn main(x: u8, c: bool) -> u8 {{ let mut r = 0u8; let y: {ty} = {{ {val}; {tail} }}; r }}\n"));
+            v.push(format!("pub fn main(x: u8, c: bool) -> u8 {{ let mut r = 0u8; let y = if c {{ {val}; {tail} }} else {{ {val} }}; r }}\n"));
+            v.push(format!("fn f(p: {ty}) -> u8 {{ 0u8 }}\npub fn main(x: u8, c: bool) -> u8 {{ let mut r = 0u8; f({{ {val}; {tail} }}) + r }}\n"));
+            v.push(format!("pub fn main(x: u8, c: bool) -> u8 {{ let mut r = 0u8; let y = match c {{ true => {{ {val}; {tail} }}, false => {val} }}; r }}\n"));
+        }
+    }
     // a definition that is dropped because a later one has the same name must not hide its errors
     for prog in [
         "fn f(a: u8) -> u8 { a + undefined }\nfn f(a: u8) -> u8 { a }\npub fn main(x: u8) -> u8 { f(x) }\n",
